@@ -176,6 +176,7 @@ def run(ctx):
         ('{"NoMarkerEscape", "MarkerBeforeHint"}', "Inv_RoundTripOutsideKF",
          "marker key in a Dict[...]-typed field hijacks from_json (fix c05-dict-hint-before-markers)"),
         ('{"PassThroughNonJson"}', "Inv_Cell", "timedelta cell is not JSON-serialisable (fix c05-xlsx-timedelta)"),
+        ('{"EncodeFromPosition"}', "Inv_RoundTrip", "a BytesIO the caller has read is encoded from its current position"),
     ]:
         jobs.append(("sens", f"SerialGen sensitivity Deviations={devs}: {why}", (devs, inv),
                      pool.submit(run_tlc, sd / "SerialGen", meta_cfg(devs, [inv]), scratch=ctx.scratch, timeout=900,
@@ -253,8 +254,9 @@ def run(ctx):
     fx = sorted(str(p) for p in (REPO / "sharepoint2text" / "tests" / "resources").rglob("*") if p.is_file())
     if not fx:
         raise MachineryError("no fixtures under sharepoint2text/tests/resources")
-    fprocs = [_worker("fixtures", {"files": fx[i::4], "wd": str(ctx.scratch / f"fx{i}"), "seed": ctx.seed, "gen": i == 0},
-                      ctx.scratch, f"fx{i}") for i in range(4)]
+    fprocs = [_worker("fixtures", {"files": fx[i::6] if i < 6 else [], "all_files": fx, "wd": str(ctx.scratch / f"fx{i}"),
+                                    "seed": ctx.seed, "gen": i == 6},
+                      ctx.scratch, f"fx{i}") for i in range(7)]
     inst_out = _collect(procs, "instances")
     fx_out = _collect(fprocs, "fixtures")
     events = [e for o in inst_out for e in o["events"]]
@@ -267,6 +269,12 @@ def run(ctx):
         raise MachineryError("too few events recorded: binding broken")
     if sum(1 for e in fx_events if e["a"] == "Cli") < 20 or not any(e["a"] == "Cell" for e in fx_events):
         raise MachineryError("CLI / cell events missing: binding broken")
+    n_item = sum(1 for e in fx_events if e["a"] == "CliItem" and "generated bundle" in e["src"] and not e["binary"]
+                 and e["mode"] == "unit" and '"bytes' in json.dumps(e["v"]))
+    n_read = sum(1 for e in fx_events if e["a"] == "RoundTrip" and "streams read" in e.get("src", ""))
+    if not n_item or not n_read:
+        raise MachineryError(f"multi-result CLI items with binary units ({n_item}) / replays with read streams ({n_read}) "
+                             "missing: binding broken")
 
     # ---- 4. code -> spec: TLC validates the observations
     law_cfg = f'SPECIFICATION TraceSpec\nCONSTRAINT TraceAccept\nCONSTANTS\n Deviations = {ASBUILT_AFTER_FIXES}\n Accept = "law"\n'
@@ -281,6 +289,9 @@ def run(ctx):
                     + (e.get("exc") or ("from_json(json.loads(json.dumps(to_json()))) differs from the original"
                                         if e["out"] != e["v"] or e["same"].startswith("no")
                                         else "binary-excluded JSON differs from the full JSON outside the binary fields")))
+        if e["a"] == "CliItem":
+            return (f"CLI {e['mode']} binary={e['binary']} on {e['src']} ({e['cls']}): the printed item is not the "
+                    + ("complete library JSON" if e["binary"] else "library JSON with exactly the binary fields null"))
         if e["a"] == "Cell":
             return f"XLSX cell of Python type {e['kind']} is stored as {e['out']} ({e.get('exc', '')})"
         return (f"CLI {e['mode']} binary={e['binary']} on {e['src']}: rc={e['rc']} results={e['n']} "
@@ -288,7 +299,8 @@ def run(ctx):
 
     def where(e):
         return {"RoundTrip": "serialization.py:_serialize_for_json/_deserialize_value/_deserialize_dataclass",
-                "Cell": "xlsx_extractor.py:_get_cell_value", "Cli": "cli.py:_serialize_results/_serialize_unit_results"}[e["a"]]
+                "Cell": "xlsx_extractor.py:_get_cell_value", "Cli": "cli.py:_serialize_results/_serialize_unit_results",
+                "CliItem": "cli.py:_serialize_results/_serialize_unit_results"}[e["a"]]
 
     # 4a. batched traces (events without any marker-keyed dict)
     pending = [plain[i:i + 60] for i in range(0, len(plain), 60)]
@@ -350,8 +362,10 @@ def run(ctx):
     ev.set(rule="every registered instantiable dataclass x every value template TLC enumerates for the hint shape of "
                 "each of its fields (all fields populated at once, template lists cycled; strings, dict keys and "
                 "type names from the marker vocabulary) + every result and unit of every repo fixture and of "
-                "generated XLSX files with typed cells + the CLI in 4 modes per fixture; non-trivial = distinct "
-                "abstract value with more than 8 nodes",
+                "generated XLSX files with typed cells, each replayed again with its BytesIO payloads read to the "
+                "end / middle (the templates enumerate the stream position too) + the CLI in 4 modes per fixture and "
+                "per generated archive of fixtures with pictures, every printed result / unit of multi-result inputs "
+                "checked against its object; non-trivial = distinct abstract value with more than 8 nodes",
            exhaustive=not ctx.thorough,
            constants={"classes": len(schema), "instantiated": len(inst), "protocol_classes_skipped": skipped,
                       "hint_shapes": len(shapes), "templates": ntpl, "template_widths": [list(w) for w in tpl_widths],
@@ -424,7 +438,7 @@ def _w_fixtures(job):
     import sharepoint2text
     from sharepoint2text import cli
     from sharepoint2text.parsing.extractors.serialization import serialize_extraction
-    from ..c05_lib import execute, has_marker_dict
+    from ..c05_lib import Proj, execute, has_marker_dict, set_positions
     logging.disable(logging.CRITICAL)
     for n in ("main", "_serialize_results", "_serialize_unit_results"):
         if not hasattr(cli, n):
@@ -454,12 +468,64 @@ def _w_fixtures(job):
     def lib_json(results, binary):
         return [json.loads(json.dumps(serialize_extraction(r, include_binary=binary))) for r in results]
 
-    def lib_units(results, binary):
-        return [[json.loads(json.dumps(serialize_extraction(u, include_binary=binary))) for u in r.iterate_units()]
-                for r in results]
-
     def jt(x):
         return "obj" if isinstance(x, dict) else "arr" if isinstance(x, list) else "other"
+
+    def has_binary(v):
+        if v["t"] in ("bytes", "bytesio"):
+            return True
+        return any(has_binary(x) for x in v.get("xs", ())) or any(has_binary(x) for _, x in v.get("kv", ())) \
+            or any(has_binary(x) for _, x in v.get("f", ()))
+
+    def run_variants(obj, src):
+        """RoundTrip events of one live object: as extracted, and -- when it holds BytesIO payloads -- again
+        after a caller read the streams to the end / to the middle.  Returns False if not serialisable."""
+        keep = 0
+        e = None
+        for keep in (0, 3, 1):
+            e = execute(obj, keep)
+            if e["_nodes"] <= NODE_CAP:
+                break
+        e["src"] = src
+        e["_suspect"] = has_marker_dict(e["v"])
+        events.append(e)
+        for where in ("end", "mid"):
+            if not set_positions(obj, where):
+                break
+            d = execute(obj, keep)
+            d["src"] = f"{src}, streams read to the {where}"
+            d["_suspect"] = has_marker_dict(d["v"])
+            events.append(d)
+        set_positions(obj, "start")
+        return e["j"]["t"] != "error"
+
+    # multi-result inputs whose units carry binary payloads: archives of repo fixtures with pictures
+    if job["gen"]:
+        import random
+        import zipfile
+        cands = []
+        for f in job["all_files"]:
+            ext = os.path.splitext(f)[1].lower()
+            if ext not in (".docx", ".pptx", ".xlsx", ".pdf", ".odt", ".odp", ".ods", ".epub") or "password" in f \
+                    or any(os.path.splitext(c)[1].lower() == ext for c in cands) or os.path.getsize(f) > 3_000_000:
+                continue
+            try:
+                rs = list(sharepoint2text.read_file(f))
+                if len(rs) == 1 and any(has_binary(Proj().py(u)) for u in rs[0].iterate_units()):
+                    cands.append(f)
+            except Exception:
+                pass
+            if len(cands) >= 6:
+                break
+        if len(cands) < 2:
+            raise SystemExit("no two fixtures whose units carry binary payloads: cannot build the multi-result CLI input")
+        random.Random(f"{job['seed']}:zip").shuffle(cands)
+        for k, members in enumerate([cands[:2], cands[2:5] or cands[:2]]):
+            zp = wd / f"bundle{k}.zip"
+            with zipfile.ZipFile(zp, "w", zipfile.ZIP_DEFLATED) as z:
+                for m in members:
+                    z.write(m, arcname=os.path.basename(m))
+            files.append((str(zp), f"generated bundle{k}.zip of " + "+".join(os.path.basename(m) for m in members)))
 
     for path, rel in files:
         try:
@@ -471,43 +537,35 @@ def _w_fixtures(job):
             continue
         serialisable = True
         for ri, r in enumerate(results):
-            e = None
-            for keep in (0, 3, 1):
-                e = execute(r, keep)
-                if e["_nodes"] <= NODE_CAP:
-                    break
-            e["src"] = f"{rel}#{ri}"
-            e["_suspect"] = has_marker_dict(e["v"])
-            events.append(e)
-            serialisable = serialisable and e["j"]["t"] != "error"
+            serialisable = run_variants(r, f"{rel}#{ri}") and serialisable
             try:
                 units = list(r.iterate_units())
             except Exception as ex:
                 notes.append(f"{rel}: iterate_units raised {type(ex).__name__}")
                 units = []
             for ui in sorted(set(list(range(min(3, len(units)))) + ([len(units) - 1] if units else []))):
-                e = execute(units[ui], 0)
-                if e["_nodes"] > NODE_CAP:
-                    e = execute(units[ui], 1)
-                e["src"] = f"{rel}#{ri} unit {ui + 1}"
-                e["_suspect"] = has_marker_dict(e["v"])
-                events.append(e)
+                run_variants(units[ui], f"{rel}#{ri} unit {ui + 1}")
         if not serialisable:
             continue                    # already reported by the RoundTrip event; the CLI cannot do better
         # CLI, only where two fresh library extractions agree (determinism is C06's business); the result
         # JSON is taken before the units are iterated (an accessor may write into the object)
         try:
-            snaps = []
+            snaps, objs = [], None
             for _ in range(2):
                 fresh = list(sharepoint2text.read_file(path))
-                snaps.append(({b: lib_json(fresh, b) for b in (False, True)},
-                              {b: lib_units(fresh, b) for b in (False, True)}))
+                rj = {b: lib_json(fresh, b) for b in (False, True)}
+                uobjs = [list(r.iterate_units()) for r in fresh]
+                uj = {b: [lib_json(us, b) for us in uobjs] for b in (False, True)}
+                snaps.append((rj, uj))
+                objs = objs or (fresh, uobjs)
             stable = snaps[0] == snaps[1]
         except Exception:
             stable = False
         if not stable:
             notes.append(f"{rel}: two extractions differ, CLI comparison skipped")
             continue
+        fresh, uobjs = objs
+        multi = len(results) > 1
         for mode, flag in (("json", "--json"), ("unit", "--json-unit")):
             for binary in (False, True):
                 buf, err = io.StringIO(), io.StringIO()
@@ -518,6 +576,7 @@ def _w_fixtures(job):
                         rc = f"raised {type(ex).__name__}"
                 top = inner = "-"
                 eq = False
+                parsed = None
                 try:
                     parsed = json.loads(buf.getvalue())
                     top = jt(parsed)
@@ -529,6 +588,33 @@ def _w_fixtures(job):
                     top = "unparsable"
                 events.append({"a": "Cli", "mode": mode, "binary": binary, "n": len(results), "rc": rc if isinstance(rc, int) else -1,
                                "top": top, "inner": inner, "eq": eq, "src": rel})
+                # every item of the output against the object it was made from (multi-result inputs, and
+                # single results that are small): TLC decides the binary-exclusion law per result / unit
+                if parsed is None:
+                    continue
+                per_result = parsed if multi else [parsed]
+                if not isinstance(per_result, list) or len(per_result) != len(fresh):
+                    continue              # wrong shape: the Cli event above is rejected
+                pairs = []
+                for i, r in enumerate(fresh):
+                    if mode == "json":
+                        pairs.append((r, snaps[0][0][True][i], per_result[i], f"result {i}"))
+                    elif isinstance(per_result[i], list) and len(per_result[i]) == len(uobjs[i]):
+                        for k_, u in enumerate(uobjs[i]):
+                            if k_ < 3 or k_ == len(uobjs[i]) - 1:
+                                pairs.append((u, snaps[0][1][True][i][k_], per_result[i][k_], f"result {i} unit {k_ + 1}"))
+                for obj, full, item, what in pairs:
+                    ev_ = None
+                    for keep in (0, 3, 1):
+                        p = Proj(keep)
+                        ev_ = {"a": "CliItem", "mode": mode, "binary": binary, "cls": type(obj).__name__,
+                               "v": p.py(obj), "j": p.js(full), "cli": p.js(item),
+                               "src": f"{rel} {what}", "_enc": p.enc, "_dec": p.dec, "_classes": sorted(p.classes),
+                               "_nodes": p.nodes}
+                        if p.nodes <= NODE_CAP:
+                            break
+                    if multi or ev_["_nodes"] <= 300:
+                        events.append(ev_)
     return {"events": events, "notes": notes}
 
 
